@@ -79,6 +79,8 @@ type Server struct {
 	srvs    []*http.Server
 	Hosts   []string // "127.0.0.2:port" per host index
 	Default Resp
+	// Dynamic, when set, answers URIs that have no static route (host index, uri, request number).
+	Dynamic func(h int, uri string, n int) *Resp
 }
 
 func New(nhosts int, emit Event) (*Server, error) {
@@ -159,6 +161,17 @@ func (s *Server) handle(host string, w http.ResponseWriter, r *http.Request) {
 			resp = rs[n-1]
 		} else {
 			resp = rs[len(rs)-1]
+		}
+	} else if s.Dynamic != nil {
+		hi := 0
+		for i, hn := range s.Hosts {
+			if hn == host {
+				hi = i
+			}
+		}
+		if d := s.Dynamic(hi, uri, n); d != nil {
+			resp = *d
+			ok = true
 		}
 	}
 	s.emit(map[string]any{"ev": "req", "host": host, "uri": uri, "url": "http://" + host + uri, "n": n, "routed": ok, "ua": r.UserAgent()})
